@@ -538,3 +538,27 @@ func TestF29MapKeyPointerReceiverTextMethod(t *testing.T) {
 		}
 	}
 }
+
+type f30K string
+
+func (k f30K) MarshalText() ([]byte, error) { return []byte("k:" + string(k)), nil }
+
+// F30: Deterministic(true) with distinct keys whose emitted names are equal.
+func TestF30DeterministicTiedNames(t *testing.T) {
+	opts := []json.Options{json.Deterministic(true), jsontext.AllowInvalidUTF8(true), jsontext.AllowDuplicateNames(true)}
+	seen := map[string]bool{}
+	for rep := 0; rep < 200; rep++ {
+		m := map[f30K]int{}
+		for i := 0; i < 6; i++ {
+			m[f30K(fmt.Sprintf("t%d\xff", (i+rep)%6))], m[f30K(fmt.Sprintf("t%d\xfe", (i+rep)%6))] = 1, 2
+		}
+		b, err := json.Marshal(m, opts...)
+		if err != nil {
+			t.Fatal(err)
+		}
+		seen[string(b)] = true
+	}
+	if len(seen) != 1 {
+		t.Errorf("Deterministic(true) produced %d different outputs for equal maps", len(seen))
+	}
+}
